@@ -1903,28 +1903,49 @@ def _ud_second_set() -> frozenset:
     return _UD_SECOND
 
 
-def _ud_active(form: str, c: str) -> bool:
-    """can normalisation to `form` change this character, move it, or merge it into its predecessor?"""
-    full = 'NFKD' if 'K' in form else 'NFD'
-    return (unicodedata.combining(c) != 0 or unicodedata.normalize(full, c) != c or unicodedata.normalize(form, c) != c
-            or c in _ud_second_set() or 0x1100 <= ord(c) <= 0x11FF)
+def _ud_stays(form: str, c: str) -> bool:
+    """normalisation to `form` leaves this character alone wherever it stands, except that it may take up
+    combining characters that follow it: unchanged by `form`, a starter, never absorbed by a predecessor"""
+    return (unicodedata.normalize(form, c) == c and unicodedata.combining(c) == 0 and c not in _ud_second_set()
+            and not 0x1100 <= ord(c) <= 0x11FF)
+
+
+def _ud_map1(form: str, c: str, alphabet):
+    """a character that `form` replaces by exactly one other character r of the alphabet, r being of the
+    `stays` kind: since c and r are equivalent, normalize(A + c + B) == normalize(A + r + B) for all A, B, so c can be
+    mapped to r symbolically (no fork)"""
+    if unicodedata.combining(c) != 0 or c in _ud_second_set() or 0x1100 <= ord(c) <= 0x11FF:
+        return None
+    r = unicodedata.normalize(form, c)
+    if len(r) == 1 and r != c and r in alphabet and _ud_stays(form, r):
+        return r
+    return None
 
 
 def _ud_interacts(form: str, c: str, run: str) -> bool:
     return unicodedata.normalize(form, c + run) != c + unicodedata.normalize(form, run)
 
 
-def _normalize_core(form, items, ask, concretize):
+def _normalize_core(form, items, alphabet, ask, concretize, remap):
     """items: plain characters and opaque (symbolic) ones.  ask(item, key, pred) decides a predicate on an
-    opaque item, concretize(item) makes it a plain character.  Every opaque character that normalisation
-    could change, move or merge (an 'active' one) is made concrete, likewise an inactive one that would
-    combine with the concrete run after it.  What stays opaque is a starter that does not decompose, cannot be
-    absorbed by its predecessor and does not combine with its successors: normalisation is then the
-    concatenation of CPython's normalisation of the concrete runs and the opaque characters themselves."""
+    opaque item, concretize(item) makes it a plain character, remap(item, table) applies a character -> character
+    table to it without deciding anything.
+    An opaque character is (1) mapped through the one-to-one replacements of `form` (fullwidth solidus -> '/', one dot
+    leader -> '.', ...), or (2) made concrete when normalisation could expand, move or merge it (combining marks,
+    ligatures, decomposing letters, ...), or when (3) it would combine with the concrete run that follows it.  What
+    stays opaque is a starter that `form` leaves alone, that cannot be absorbed by its predecessor and does not
+    combine with its successors: the result is then the concatenation of CPython's normalisation of the concrete
+    runs and the opaque characters."""
+    table = {c: r for c in alphabet for r in [_ud_map1(form, c, alphabet)] if r is not None}
+    akey = ''.join(alphabet)
     cs = list(items)
     for i, ch in enumerate(cs):
-        if not isinstance(ch, str) and ask(ch, ('ud-active', form), lambda c: _ud_active(form, c)):
+        if isinstance(ch, str):
+            continue
+        if ask(ch, ('ud-active', form, akey), lambda c: not _ud_stays(form, c) and c not in table):
             cs[i] = concretize(ch)
+        elif table:
+            cs[i] = remap(ch, table)
     again = True
     while again:
         again = False
@@ -1987,7 +2008,15 @@ class UnicodedataShim:
         if form not in _UD_FORMS:
             raise ValueError('invalid normalization form')
         items = [_norm(ch) for ch in _chars(unistr)]
-        return _mk(_normalize_core(form, items, ch_test, self._concretize))
+        return _mk(_normalize_core(form, items, _st().sigma.chars, ch_test, self._concretize, self._remap))
+
+    @staticmethod
+    def _remap(ch, table):
+        sg = _st().sigma
+        r = ch
+        for c, t in table.items():
+            r = z3.If(ch == sg.val(sg.index[c]), sg.val(sg.index[t]), r)
+        return _norm(z3.simplify(r))
 
     def is_normalized(self, form, unistr):
         if isinstance(unistr, str) and not has_sym(unistr):
@@ -2063,7 +2092,7 @@ class _Opaque:
         self.ch = ch
 
 
-def _selftest_normalize(alphabet='ae.\u0301\u0327\u00e9\uff0f\u2024\ufb01/\u1100\u1161\u212b', maxlen=3) -> int:
+def _selftest_normalize(alphabet='ae.\u0301\u0327\u00e9\uff0f\u2024\ufb01/\u1100\u1161\u212b\u00c5\u0338=', maxlen=3) -> int:
     """the segment rule of _normalize_core against unicodedata.normalize: every character is handed in as an opaque
     one (answers come from the real character), so whatever the rule leaves opaque is checked to be left alone by
     CPython in that context"""
@@ -2073,8 +2102,8 @@ def _selftest_normalize(alphabet='ae.\u0301\u0327\u00e9\uff0f\u2024\ufb01/\u1100
         for t in itertools.product(alphabet, repeat=k):
             s = ''.join(t)
             for form in _UD_FORMS:
-                got = _normalize_core(form, [_Opaque(c) for c in s], lambda it, key, pred: bool(pred(it.ch)), lambda it: it.ch)
-                kept = sum(1 for x in got if isinstance(x, _Opaque))
+                got = _normalize_core(form, [_Opaque(c) for c in s], alphabet, lambda it, key, pred: bool(pred(it.ch)), lambda it: it.ch,
+                                      lambda it, table: _Opaque(table.get(it.ch, it.ch)))
                 got = ''.join(x.ch if isinstance(x, _Opaque) else x for x in got)
                 if got != unicodedata.normalize(form, s):
                     raise HarnessError(f'unicodedata stand-in differs: normalize({form!r}, {s!r}): real '
